@@ -32,8 +32,8 @@ Ltac inv H :=
 
 (* a module written under defaults D: every list field is D's followed by its own, env fields are
    D's merged with its own, and the scalar fields are its own *)
-Theorem convert_module_fields bd y ctx is_binary filename (D : module) m :
-  convert_module bd y ctx is_binary filename (Some D) = Ok m ->
+Theorem convert_module_fields bd y ctx is_binary filename root (D : module) m :
+  convert_module bd y ctx is_binary filename root (Some D) = Ok m ->
   exists sel uses depends,
     deps_of_specs (odflt [] (ym_selects y)) = Ok sel /\
     rmapM dependency_from_string (odflt [] (ym_uses y)) = Ok uses /\
@@ -47,7 +47,12 @@ Theorem convert_module_fields bd y ctx is_binary filename (D : module) m :
     m_build m = ym_build y /\
     m_is_build_dep m = (match ym_download y with Some _ => true | None => ym_is_build_dep y end) /\
     m_is_global_build_dep m = ym_is_global_build_dep y /\ m_download m = ym_download y /\
-    m_name m = match ym_name y with Some n => n | None => parent filename end /\
+    m_name m = match ym_name y with
+               | Some n => n
+               | None => match root with
+                         | Some r => match strip_prefix (parent filename) r with Some x => x | None => parent filename end
+                         | None => parent filename end
+               end /\
     m_context_name m = match ctx with Some c => c | None => m_context_name D end /\
     m_notify_all m = (m_notify_all D || ym_notify_all y) /\
     (ym_download y = None -> m_build_dep_files m = m_build_dep_files D).
